@@ -9,6 +9,15 @@ CTE_NOTE = ('Trusted: CPython, the ChoiceSource seam (every random decision of /
             'departures from every base schedule than the completed deviation bound.')
 
 CHECKS = {
+ 'C01': dict(engine='CTE', category='model_checking', design_ref='5 C01',
+   text='Every generated program of the explored executions (4 languages x 6 (thorough 16) switch vectors x base schedules '
+        'x deviation bound, limits S/M/D) is checked by R-TC, an independent bidirectional reference type checker with its own '
+        'scopes and its own subtyping: initializers, call/constructor arguments (with receiver and explicit type-argument '
+        'substitution, renamed apart), function results, conditional branches against the expected type, assignments, '
+        'explicit type arguments against bounds, abstract members, overrides, final superclasses, interface inheritance.',
+   note=CTE_NOTE + ' R-TC is three-valued: positions it cannot type (members through projected receivers, bottom '
+        'receivers) are counted as skipped, never reported; subtyping alarms use the liberal reading of R-SUB.',
+   technique='stateless choice-tree exploration with an independent reference type checker as oracle'),
  'C02': dict(engine='CTE+javac', category='model_checking', design_ref='5 C02',
    text='Every distinct Java text of the generated and of the erased program of every explored execution (Java configs, '
         'several switch vectors) is compiled alone by the real javac 17 (-nowarn) and then again in batches of 2, 8 and 32 at '
@@ -17,6 +26,14 @@ CHECKS = {
         'the files the structured diagnostics blame (C14 binding).',
    note=CTE_NOTE + ' OpenJDK 17 javac is the judge; batch neighbours come from the same exploration unit.',
    technique='stateless choice-tree exploration with the real compiler as oracle (alone vs every batch position)'),
+ 'C05': dict(engine='CTE', category='model_checking', design_ref='5 C05',
+   text='Same exploration as C01 with the scope rules of the reference checker (own lexical scopes: every name use '
+        'resolves, arity, non-final assignment targets, regular classes only) plus unique identifiers per scope, type '
+        'variables in scope, Java capture rules and reserved words; plus a full sweep of all 52 062 words x 3 case '
+        'transforms x 4 languages against the pool the real reserved-word filter leaves (authoritative keyword lists in '
+        'the harness) and an exhaustive history search of the word()/reset contract on a 3-word pool.',
+   note=CTE_NOTE + ' Contextual keywords that are legal identifiers are not in the lists.',
+   technique='stateless choice-tree exploration with an independent scope resolver + exhaustive word-list sweep'),
  'C06': dict(engine='SSE', category='exploration', design_ref='5 C06',
    text='Type.is_subtype / is_assignable is compared with an independent declarative relation (with capture) on every '
         'ordered pair of well-formed types up to nesting depth 2 over every well-formed class table of a skeleton grammar '
@@ -118,7 +135,7 @@ CHECKS = {
 }
 
 ENGINES = [
- {'name': 'CTE', 'path': 'mc/explore.py', 'serves_properties': ['C02', 'C07', 'C11', 'C13', 'C17', 'C18'],
+ {'name': 'CTE', 'path': 'mc/explore.py', 'serves_properties': ['C01', 'C02', 'C05', 'C07', 'C11', 'C13', 'C17', 'C18'],
   'kind_free_text': 'stateless deviation-bounded explorer of the choice tree of the real pipeline (ChoiceSource replaces src.utils.random.r)'},
  {'name': 'javac-server', 'path': 'javasrv/CompileServer.java', 'serves_properties': ['C02', 'C14'],
   'kind_free_text': 'warm JVM compiling file sets with javax.tools (structured diagnostics) and com.sun.tools.javac.Main (CLI text)'},
